@@ -190,6 +190,9 @@ impl St {
 #[derive(Clone, Debug)]
 pub enum Cmd {
     S(Box<St>),
+    /// like S, but loads the state into the EXISTING CPU object (same top address) instead of creating a
+    /// new one: anything the implementation keeps outside the modelled state survives
+    SR(Box<St>),
     /// patch registers + control, keep memory
     P(Box<St>),
     X,
@@ -224,6 +227,7 @@ impl Cmd {
     pub fn line(&self) -> String {
         match self {
             Cmd::S(s) => s.line(),
+            Cmd::SR(s) => s.line(),
             Cmd::P(s) => format!("P {}", s.regctl_text()),
             Cmd::X => "X".into(),
             Cmd::T => "T 0".into(),
@@ -447,6 +451,32 @@ impl Imp {
                 }
                 self.cpu = CPU::new(s.top);
                 self.cpu.bus.verif_mem_mut().copy_from_slice(&img);
+                if let Some((a, b)) = s.rom {
+                    self.cpu.bus.set_romspace(a, b);
+                }
+                load_regs(&mut self.cpu, s);
+                self.set_ctl(s, true);
+                self.cpu.debug.unknw_instr = s.dbg[0];
+                self.cpu.debug.opcode = s.dbg[1];
+                self.cpu.debug.io = s.dbg[2];
+                self.cpu.debug.instr_in = s.dbg[3];
+                self.cpu.debug.string = String::new();
+                self.base = img;
+                "ok".into()
+            }
+            Cmd::SR(s) => {
+                let len = s.top as usize + 1;
+                if self.cpu.bus.verif_mem().len() != len {
+                    return self.exec(&Cmd::S(s.clone()));
+                }
+                let mut img = self.image(s.seed, len);
+                for (a, b) in &s.ovr {
+                    if (*a as usize) < len {
+                        img[*a as usize] = *b;
+                    }
+                }
+                self.cpu.bus.verif_mem_mut().copy_from_slice(&img);
+                self.cpu.bus.verif_clear_rom();
                 if let Some((a, b)) = s.rom {
                     self.cpu.bus.set_romspace(a, b);
                 }
